@@ -192,7 +192,7 @@ def random_universe(rnd):
     maxh = {'14.5': 16, '20': 25, '25': 35, '30': 45}
     for i in range(2):
         a = al[i]
-        h = rnd.uniform(0.5, maxh[a] - 0.1)
+        h = rnd.uniform(0.5, maxh[a] - 0.1) if rnd.random() < 0.7 else rnd.uniform(maxh[a] - 5, maxh[a] - 0.1)     # steep helices too
         t = Fraction(math.tan(math.radians(h) / 2)).limit_denominator(10**7)
         uni[f'W{i}'] = {'kind': 'WormGear', 'teeth': rnd.randint(1, 4), 'module': N, 'th': rstr(t), 'alpha': rstr(spectab.to_si(Fraction(a), 'Angle', 'deg')), 'name': f'W{i}'}
         a2 = a if rnd.random() < 0.8 else rnd.choice(alphas)
@@ -218,7 +218,8 @@ def random_calls(rnd, uni, n):
         elif r < 0.2:
             arg = {'isnum': True, 'v': rstr(rnd.choice([0, 1, -0.25, 1.5, 1.0000001, -1e-9]))}
         else:
-            arg = {'isnum': True, 'v': rstr(float(f'{rnd.uniform(0, 1 if c == "gear" else 0.6):.6g}'))}
+            hi = 1 if c == 'gear' or rnd.random() < 0.4 else 0.6                  # the whole legal friction range [0, 1] as well
+            arg = {'isnum': True, 'v': rstr(float(f'{rnd.uniform(0, hi):.6g}'))}
         calls.append({'call': c, 'm': m, 's': s, 'arg': arg})
     return calls
 
@@ -365,7 +366,7 @@ ASM = ('Assemble', 'Powertrain')
 
 def run_C10(tier, seed):
     return _run('C10', tier, seed, lambda c: not c.startswith(ASM),
-                'spec->code: every single declaration call over the 13-object universe of MC_Relations x every argument class (exhaustive), '
+                'spec->code: every single declaration call over the 16-object universe of MC_Relations x every argument class (exhaustive), '
                 'deeper call sequences enumerated/simulated by TLC, each replayed on fresh real objects; code->spec: seeded random universes '
                 '(teeth, modules, helix and pressure angles in random units, real-valued efficiency/friction in and out of range, non-numbers) with random '
                 'call sequences incl. failing ones; after EVERY call all objects\' public relation attributes are re-read and TLC validates them against Relations.tla')
